@@ -1291,7 +1291,14 @@ class Gen:
             return ("bin", BOOL, r.choice(["==", "!="]), self.expr(t, d - 1), self.expr(t, d - 1))
         if k < 72:
             self.features.add("shortcircuit")
-            return ("bin", BOOL, r.choice(["and", "or"]), self.expr(BOOL, d - 1), self.expr(BOOL, d - 1))
+            bvs = self.vars_of(BOOL)
+            if bvs and r.chance(35):
+                # a negated local as the left operand (the peephole optimizer fuses load, not and jump)
+                self.features.add("shortcircuit-not-local")
+                left = ("not", BOOL, ("var", BOOL, r.choice(bvs)))
+            else:
+                left = self.expr(BOOL, d - 1)
+            return ("bin", BOOL, r.choice(["and", "or"]), left, self.expr(BOOL, d - 1))
         if k < 80:
             return ("not", BOOL, self.expr(BOOL, d - 1))
         return self.lit(BOOL)
